@@ -74,7 +74,6 @@ fn merge_ranges(ranges: &mut Vec<Range<usize>>, new_ranges: Vec<Range<usize>>) {
         return;
     }
 
-    let mut cursor = Some(ranges.len() - 1);
     let mut new_ranges = new_ranges;
 
     while !new_ranges.is_empty() {
@@ -82,7 +81,9 @@ fn merge_ranges(ranges: &mut Vec<Range<usize>>, new_ranges: Vec<Range<usize>>) {
 
         match new_range {
             Some(new_range) => {
-                cursor = match cursor {
+                // new_ranges is not sorted when blocks are nested: search from the end each time.
+                let cursor = Some(ranges.len() - 1);
+                let cursor = match cursor {
                     Some(mut cursor) => loop {
                         let range = &ranges[cursor];
                         if range.start < new_range.start {
